@@ -1,12 +1,17 @@
 """C14 — v1 load failures are library errors that render and name the innermost class and field.
 
 Theorems: coq/props/C14.v.  Malformed stream: well-typed JSON documents of v1 classes nested to
-depth 3 with ONE position replaced by junk (null, bool, huge int, nan, inf, '', list, object,
-wrong-arity list) or one required key removed.  Direct predicates on every failing load: the
-exception derives from JSONWizardError, str(e) does not raise, and (class_name, field_name) is the
-innermost (class, field) on the path to the junk, as computed by an independent Python locator that
-knows only the class definitions and the path of the mutation.  Correspondence: the same loads on
-the Gallina model (generated code, specification, Coq locator).
+depth 3 — through direct fields, list, dict values, Optional, fixed tuples, NamedTuple fields,
+TypedDict keys and tagged Unions — under every v1_key_case, with ONE mutation each:
+  value-level: a position replaced by junk (null, bool, huge int, nan, inf, '', lists, objects),
+               wrong-arity lists for tuples / NamedTuples;
+  key-level:   a key re-spelled (another casing of the expected key, a near miss), removed, or an
+               extra key added.
+Direct predicates on every failing load, whatever its kind: the exception derives from
+JSONWizardError, str(e) does not raise, and (class_name, field_name) is the innermost (class, field)
+on the path to the mutation, as computed by an independent Python locator that knows only the class
+definitions and the path of the mutation.  Correspondence: the same loads on the Gallina model
+(generated code, specification, Coq locator).
 """
 import json, base64, datetime, copy, os
 from props import c02gen as G
@@ -22,30 +27,74 @@ META = {
                   'with the implementation on a malformed-document stream'),
     'design_ref': 'DESIGN.md section 4 C14',
     'theorems': ['C14_library_error', 'C14_library_error_code_partial', 'C14_setters_once', 'C14_innermost_partial',
-                 'C14_refuted_F24'],
+                 'C14_refuted_F24', 'C14_refuted_F50'],
     'tables': [],
     'level_text': ('Proved in Coq for ALL class tables / documents / budgets: a failing load of a known class is a '
                    'JSONWizardError-derived error; and for dict-shaped documents in which every dataclass-typed position '
                    'holds None or a dict, the (class_name, field_name) the error ends up with after all nested re_raise calls '
-                   '(once-only setters) equals the innermost (class, field) found top-down by an independent locator. '
-                   'Outside that shape the statement is refuted (F24). Message rendering (str(e)) is tested, not proved.'),
+                   '(once-only setters) equals the innermost (class, field) found top-down by an independent locator — '
+                   'through list / dict / tuple / Optional / NamedTuple positions to any depth. '
+                   'Outside that shape the statement is refuted (F24); below a TypedDict the inner attribution is lost (F50, '
+                   'refuted). Message rendering (str(e)) is tested on every failing load, not proved.'),
     'level_note': ('Trusted: Coq kernel; the model of the statement skeleton of the generated dataclass function '
                    '(v1/loaders.py:1092-1288), re_raise (1340-1372) and errors.py setters; leaf conversions as an oracle whose '
                    'failures are ordinary exceptions (hypothesis, audited on every run); the harness.'),
-    'rule': ('class models nested to depth 3 through direct fields, list, dict values, Optional and fixed tuples; for each, '
-             'one well-typed document and every single-position mutation from the junk list at a sample of positions '
-             '(22 per model quick, 30 thorough; 5 resp. all 13 junk values), plus removal of each required key. Non-trivial: the junk lies inside a '
-             'nested class (depth >= 2); distinct = distinct (model, path, junk).'),
-    'trusted_base': ['message renderers (errors.py message properties, safe_dumps) are exercised on every failing load but not modelled'],
-    'assumptions': ['JSON documents with string keys', 'strings in the malformed stream are ASCII (the model iterates bytes)', 'attribution is claimed for the ParseError family (class and field) and for '
-                    'MissingFields (class and missing names); MissingFields.field_name is not claimed (plain attribute, outermost)',
-                    'a top-level None document raises MissingData with class_name None (nested_class_name names the class)'],
+    'rule': ('class models nested to depth 3 through direct fields, list, dict values, Optional, fixed tuples, NamedTuple '
+             'fields, TypedDict keys, tagged Unions; every v1_key_case (as-is, CAMEL, PASCAL, KEBAB, SNAKE, AUTO); one '
+             'well-typed document each; single mutations: junk values at a sample of positions (22 per model quick, 30 '
+             'thorough; 5 resp. all junk values), wrong arity, every key re-spelled / removed, an extra key. '
+             'Non-trivial: the mutation lies inside a nested class (depth >= 2); distinct = distinct (model, path, mutation).'),
+    'trusted_base': ['message renderers (errors.py message properties, safe_dumps) are exercised on every failing load but not modelled',
+                     'tagged Unions of dataclasses are not in the Gallina model: those models run the direct predicates only'],
+    'assumptions': ['JSON documents with string keys', 'strings in the malformed stream are ASCII (the model iterates bytes)',
+                    'attribution is claimed for the ParseError family (class and field) and for '
+                    'MissingFields (class and missing names); MissingFields.field_name is not claimed (plain attribute, outermost)'],
 }
 
-REGION_ID = {'F24': 'F24-v1-nondict-attribution'}
+REGION_ID = {'F24': 'F24-v1-nondict-attribution', 'F50': 'F50-v1-typeddict-wraps-inner-error',
+             'F51': 'F51-v1-tag-check-before-field', 'F54': 'F54-v1-toplevel-missingdata-no-class'}
 JUNK = [['N'], ['B', True], ['I', str(10 ** 30)], ['F', 'nan'], ['F', 'inf'], ['S', ''], ['L', []],
         ['L', [['I', '1'], ['I', '2'], ['I', '3']]], ['D', None, []], ['D', None, [[['S', 'zzz'], ['I', '1']]]],
         ['S', 'junk'], ['I', '-7'], ['F', (1.5).hex()], ['L', [['S', 'x']]]]
+KEY_CASES = [None, 'CAMEL', 'PASCAL', 'KEBAB', 'SNAKE', 'AUTO']
+TAG_KEY = '__tag__'
+
+
+# ---------------------------------------------------------------------------------- key spellings (reference)
+def _cap(w):
+    return w[0].upper() + w[1:]
+
+
+def spellings(name):
+    """documented spellings of a canonical snake_case field name"""
+    ws = name.split('_')
+    return {'SNAKE': name, 'CAMEL': ws[0] + ''.join(_cap(w) for w in ws[1:]), 'PASCAL': ''.join(_cap(w) for w in ws),
+            'KEBAB': '-'.join(ws), 'UKEBAB': '-'.join(_cap(w) for w in ws), 'USNAKE': '_'.join(_cap(w) for w in ws),
+            'SCREAMING': name.upper()}
+
+
+def doc_key(name, kc, r):
+    if kc is None:
+        return name
+    if kc == 'AUTO':
+        return spellings(name)[r.choice(['SNAKE', 'CAMEL', 'PASCAL', 'KEBAB'])]
+    return spellings(name)[kc]
+
+
+def field_of_key(cd, key):
+    """the field a document key was written for (any documented spelling)"""
+    for f in cd['fields']:
+        if key == f['name'] or key in spellings(f['name']).values():
+            return f
+    return None
+
+
+def maybe_accepted(name, kc, key):
+    if kc is None:
+        return key == name
+    if kc == 'AUTO':
+        return key == name or key in spellings(name).values()
+    return key == spellings(name)[kc]
 
 
 # ---------------------------------------------------------------------------------- reference wire format
@@ -54,9 +103,10 @@ def _td_str(tok):
     return str(datetime.timedelta(days=d, seconds=s, microseconds=us))
 
 
-def dump_doc(v, t, model):
+def dump_doc(v, t, model, r):
     """JSON document of a conforming value (transcribed from the documented wire encoding)"""
     k = t['k']
+    kc = model.get('key_case')
     if k == 'leaf':
         l = t['l']
         if v[0] == 'Y' or v[0] == 'A':
@@ -68,7 +118,7 @@ def dump_doc(v, t, model):
             if l in ('decimal', 'path', 'date'):
                 return ['S', tok]
             if l in ('time', 'datetime'):
-                return ['S', tok.replace('+00:00', 'Z', 1)]
+                return ['S', tok[:-6] + 'Z' if tok.endswith('+00:00') else tok]
             if l == 'timedelta':
                 return ['S', _td_str(tok)]
             if l.startswith('enum:'):
@@ -76,68 +126,100 @@ def dump_doc(v, t, model):
                 return ['I', str(val)] if isinstance(val, int) else ['S', val]
         return v
     if k == 'seq':
-        return ['L', [dump_doc(x, t['t'], model) for x in v[1]]]
+        return ['L', [dump_doc(x, t['t'], model, r) for x in v[1]]]
     if k == 'tuple':
-        return ['L', [dump_doc(x, tt, model) for x, tt in zip(v[1], t['ts'])]]
+        return ['L', [dump_doc(x, tt, model, r) for x, tt in zip(v[1], t['ts'])]]
     if k == 'dict':
-        return ['D', None, [[dump_doc(kk, t['kt'], model), dump_doc(x, t['vt'], model)] for kk, x in v[2]]]
+        return ['D', None, [[dump_doc(kk, t['kt'], model, r), dump_doc(x, t['vt'], model, r)] for kk, x in v[2]]]
     if k == 'opt':
-        return v if v == ['N'] else dump_doc(v, t['t'], model)
-    if k in ('lit', 'union'):
+        return v if v == ['N'] else dump_doc(v, t['t'], model, r)
+    if k == 'lit':
+        return v
+    if k == 'union':
+        if v[0] == 'C':          # tagged dataclass member
+            alt = [x for x in t['ts'] if x['k'] == 'data' and model['classes'][x['c']]['name'] == v[1]][0]
+            d = dump_doc(v, alt, model, r)
+            return ['D', None, [[['S', TAG_KEY], ['S', v[1]]]] + d[2]]
+        if v[0] == 'L':
+            alt = [x for x in t['ts'] if x['k'] == 'seq'][0]
+            return dump_doc(v, alt, model, r)
         return v
     if k == 'named':
-        return ['L', [dump_doc(x, tt, model) for x, (_, tt) in zip(v[2], model['named'][t['name']])]]
+        return ['L', [dump_doc(x, tt, model, r) for x, (_, tt) in zip(v[2], model['named'][t['name']])]]
     if k == 'typed':
         d = model['typed'][t['name']]
         tys = dict((key, tt) for key, tt in d['req'] + d['opt'])
-        return ['D', None, [[kk, dump_doc(x, tys[kk[1]], model)] for kk, x in v[2]]]
+        return ['D', None, [[kk, dump_doc(x, tys[kk[1]], model, r)] for kk, x in v[2]]]
     if k == 'data':
         cd = model['classes'][t['c']]
         tys = {f['name']: f['ty'] for f in cd['fields']}
-        return ['D', None, [[['S', n], dump_doc(x, tys[n], model)] for n, x in v[2]]]
+        return ['D', None, [[['S', doc_key(n, kc, r)], dump_doc(x, tys[n], model, r)] for n, x in v[2]]]
     raise ValueError(k)
 
 
 # ---------------------------------------------------------------------------------- positions
-def positions(t, doc, model, frames, path, out, depth):
-    """every node of the document with its annotation and the (class, field) frames above it"""
-    out.append({'path': list(path), 'frames': list(frames), 'ty': t, 'depth': depth})
+def positions(t, doc, model, frames, path, out, depth, under_td=False, f50=False):
+    """every node of the document with its annotation and the (class, field) frames above it.
+    f50: the node lies inside (or is) a dataclass document that is below a TypedDict."""
+    here = {'path': list(path), 'frames': list(frames), 'ty': t, 'depth': depth, 'f50': f50}
+    out.append(here)
     k = t['k']
     if k == 'seq' and doc[0] == 'L':
         for i, x in enumerate(doc[1]):
-            positions(t['t'], x, model, frames, path + [['idx', i]], out, depth)
+            positions(t['t'], x, model, frames, path + [['idx', i]], out, depth, under_td, f50)
     elif k == 'tuple' and doc[0] == 'L':
         for i, (x, tt) in enumerate(zip(doc[1], t['ts'])):
-            positions(tt, x, model, frames, path + [['idx', i]], out, depth)
+            positions(tt, x, model, frames, path + [['idx', i]], out, depth, under_td, f50)
     elif k == 'dict' and doc[0] == 'D':
         for i, (kk, x) in enumerate(doc[2]):
-            positions(t['vt'], x, model, frames, path + [['val', i]], out, depth)
+            positions(t['vt'], x, model, frames, path + [['val', i]], out, depth, under_td, f50)
     elif k == 'opt' and doc != ['N']:
-        # same node, inner annotation: do not duplicate the position
-        out.pop()
-        positions(t['t'], doc, model, frames, path, out, depth)
+        out.pop()      # same node, inner annotation: do not duplicate the position
+        positions(t['t'], doc, model, frames, path, out, depth, under_td, f50)
+    elif k == 'union' and doc[0] == 'D' and any(x['k'] == 'data' for x in t['ts']):
+        # the node itself is a Union position; below it are the fields of the member the tag selects
+        tag = [x for kk, x in doc[2] if kk == ['S', TAG_KEY]]
+        alts = [x for x in t['ts'] if x['k'] == 'data' and tag and ['S', model['classes'][x['c']]['name']] == tag[0]]
+        if alts:
+            cd = model['classes'][alts[0]['c']]
+            for i, (kk, x) in enumerate(doc[2]):
+                f = field_of_key(cd, kk[1])
+                if f is not None:
+                    positions(f['ty'], x, model, frames + [[cd['name'], f['name']]], path + [['val', i]], out, depth + 1,
+                              under_td, f50 or under_td)
     elif k == 'named' and doc[0] == 'L':
         for i, (x, (_, tt)) in enumerate(zip(doc[1], model['named'][t['name']])):
-            positions(tt, x, model, frames, path + [['idx', i]], out, depth)
+            positions(tt, x, model, frames, path + [['idx', i]], out, depth, under_td, f50)
     elif k == 'typed' and doc[0] == 'D':
         d = model['typed'][t['name']]
         tys = dict((key, tt) for key, tt in d['req'] + d['opt'])
         for i, (kk, x) in enumerate(doc[2]):
-            positions(tys[kk[1]], x, model, frames, path + [['val', i]], out, depth)
+            positions(tys[kk[1]], x, model, frames, path + [['val', i]], out, depth, True, f50)
     elif k == 'data' and doc[0] == 'D':
         cd = model['classes'][t['c']]
-        tys = {f['name']: f['ty'] for f in cd['fields']}
+        here['f50'] = f50 or under_td
         for i, (kk, x) in enumerate(doc[2]):
-            positions(tys[kk[1]], x, model, frames + [[cd['name'], kk[1]]], path + [['val', i]], out, depth + 1)
+            f = field_of_key(cd, kk[1])
+            if f is None:
+                continue           # the tag key
+            positions(f['ty'], x, model, frames + [[cd['name'], f['name']]], path + [['val', i]], out, depth + 1,
+                      under_td, f50 or under_td)
+    if k == 'data':
+        here['f50'] = f50 or under_td
+
+
+def node_at(doc, path):
+    cur = doc
+    for step in path:
+        cur = cur[1][step[1]] if step[0] == 'idx' else cur[2][step[1]][1]
+    return cur
 
 
 def mutate(doc, path, junk):
-    d = copy.deepcopy(doc)
     if not path:
         return junk
-    cur = d
-    for step in path[:-1]:
-        cur = cur[1][step[1]] if step[0] == 'idx' else cur[2][step[1]][1]
+    d = copy.deepcopy(doc)
+    cur = node_at(d, path[:-1])
     last = path[-1]
     if last[0] == 'idx':
         cur[1][last[1]] = junk
@@ -146,12 +228,9 @@ def mutate(doc, path, junk):
     return d
 
 
-def delete_key(doc, path, i):
+def edit_keys(doc, path, fn):
     d = copy.deepcopy(doc)
-    cur = d
-    for step in path:
-        cur = cur[1][step[1]] if step[0] == 'idx' else cur[2][step[1]][1]
-    del cur[2][i]
+    fn(node_at(d, path)[2])
     return d
 
 
@@ -166,64 +245,69 @@ def dc_shape(t, v, model, depth=0):
         return True if it is None else all(dc_shape(t['t'], x, model, depth + 1) for x in it)
     if k == 'tuple':
         return all(dc_shape(tt, G.py_index(v, i), model, depth + 1) for i, tt in enumerate(t['ts']))
+    if k == 'named':
+        return all(dc_shape(tt, G.py_index(v, i), model, depth + 1) for i, (_, tt) in enumerate(model['named'][t['name']]))
+    if k == 'typed':
+        d = model['typed'][t['name']]
+        return all(dc_shape(tt, G.py_index(v, key), model, depth + 1) for key, tt in d['req'] + d['opt'])
     if k == 'dict':
         return True if v[0] != 'D' else all(dc_shape(t['kt'], kk, model, depth + 1) and dc_shape(t['vt'], x, model, depth + 1)
                                             for kk, x in v[2])
     if k == 'opt':
         return dc_shape(t['t'], v, model, depth)
+    if k == 'union':
+        ds = [x for x in t['ts'] if x['k'] == 'data']
+        if ds and v[0] == 'D':
+            return all(dc_shape(x, v, model, depth) for x in ds[:1])
+        return True
     if k == 'data':
         if v == ['N']:
             return True
         if v[0] != 'D':
             return False
         cd = model['classes'][t['c']]
-        return all(dc_shape(f['ty'], G.py_index(v, f['name']), model, depth + 1) for f in cd['fields'])
+        ok = True
+        for kk, x in v[2]:
+            f = field_of_key(cd, kk[1]) if kk[0] == 'S' else None
+            if f is not None:
+                ok = ok and dc_shape(f['ty'], x, model, depth + 1)
+        return ok
     return True
 
 
-def expectation(pos, junk, model, root_name):
-    """Independent reference: what a FAILING load must report.  -> dict(kind set, cls, fld, region)"""
+def expectation(pos, junk, model):
+    """Independent reference: what a FAILING load must report.  -> dict(kinds, cls, fld[, region])"""
     t = pos['ty']
     while t['k'] == 'opt':
         t = t['t']
     fr = pos['frames'][-1] if pos['frames'] else None
+    exp = None
     if t['k'] == 'data':
         cname = model['classes'][t['c']]['name']
         if junk == ['N']:
-            return {'kinds': ['D'], 'cls': fr[0] if fr else None, 'fld': fr[1] if fr else None}
-        if junk[0] != 'D':
-            return {'kinds': ['P'], 'cls': fr[0] if fr else cname, 'fld': fr[1] if fr else None, 'region': 'F24'}
-        return {'kinds': ['M'], 'cls': cname}
-    if fr is None:
+            exp = {'kinds': ['D'], 'cls': fr[0] if fr else cname, 'fld': fr[1] if fr else None}
+            if not fr:
+                exp['region'] = 'F54'
+        elif junk[0] != 'D':
+            exp = {'kinds': ['P'], 'cls': fr[0] if fr else cname, 'fld': fr[1] if fr else None, 'region': 'F24'}
+        else:
+            exp = {'kinds': ['M'], 'cls': cname}
+    elif fr is None:
         return None
-    if t['k'] == 'named':
-        return {'kinds': ['P', 'D'], 'cls': fr[0], 'fld': fr[1], 'alt': {'kinds': ['M'], 'cls': t['name']}}
-    return {'kinds': ['P', 'D'], 'cls': fr[0], 'fld': fr[1]}
+    elif t['k'] == 'named':
+        exp = {'kinds': ['P', 'D'], 'cls': fr[0], 'fld': fr[1], 'alt': {'kinds': ['M'], 'cls': G.nt_name(model, t['name'])}}
+    else:
+        exp = {'kinds': ['P', 'D'], 'cls': fr[0], 'fld': fr[1]}
+    if pos.get('f50') and not exp.get('region'):
+        exp['region'] = 'F50'
+    return exp
 
 
 # ---------------------------------------------------------------------------------- models
-def nest_ctx(r, t):
-    """wrap a dataclass reference into a container position"""
-    c = r.choice(['id', 'id', 'list', 'dictv', 'opt', 'tup', 'optlist', 'listlist'])
-    if c == 'list':
-        return seq('list', t)
-    if c == 'dictv':
-        return dct(leaf('str'), t)
-    if c == 'opt':
-        return opt(t)
-    if c == 'tup':
-        return tup(leaf('int'), t)
-    if c == 'optlist':
-        return opt(seq('list', t))
-    if c == 'listlist':
-        return seq('list', seq('list', t))
-    return t
-
-
 LEAFY = ['int', 'str', 'float', 'bool', 'date', 'datetime', 'time', 'timedelta', 'uuid', 'decimal', 'bytes', 'enum:Color', 'enum:Num', 'path']
 
 
-def leafy_type(r, mb, allow_helpers=True):
+def leafy_type(r, mb):
     l = leaf(r.choice(LEAFY))
     c = r.choice(['id', 'id', 'id', 'list', 'dictv', 'opt', 'tup', 'set', 'lit', 'union', 'unionc', 'typed', 'named', 'deque'])
     if c == 'list':
@@ -244,19 +328,58 @@ def leafy_type(r, mb, allow_helpers=True):
         return union(leaf('int'), leaf('str'))
     if c == 'unionc':      # F47: a container member next to `str`
         return union(seq('list', leaf('int')), leaf('str'))
-    if c == 'typed' and allow_helpers:
+    if c == 'typed':
         return mb.typed([('rk', l)], [('ok', leaf('int'))])
-    if c == 'named' and allow_helpers:
+    if c == 'named':
         return mb.named([('aa', l), ('bb', leaf('int'))])
     return l
 
 
+def nest_ctx(r, t, mb, allow_union=None):
+    """put a dataclass reference into a (possibly helper-compiled) position"""
+    kinds = ['id', 'id', 'list', 'dictv', 'opt', 'tup', 'optlist', 'listlist',
+             'nt', 'ntopt', 'ntlist', 'td', 'tdo', 'tdlist']
+    if allow_union is not None:
+        kinds += ['tagu', 'tagulist']
+    c = r.choice(kinds)
+    if c == 'list':
+        return seq('list', t)
+    if c == 'dictv':
+        return dct(leaf('str'), t)
+    if c == 'opt':
+        return opt(t)
+    if c == 'tup':
+        return tup(leaf('int'), t)
+    if c == 'optlist':
+        return opt(seq('list', t))
+    if c == 'listlist':
+        return seq('list', seq('list', t))
+    if c in ('nt', 'ntopt', 'ntlist'):
+        n = mb.named([('aa', leaf('int')), ('bb', t)])
+        return n if c == 'nt' else opt(n) if c == 'ntopt' else seq('list', n)
+    if c in ('td', 'tdlist'):
+        d = mb.typed([('rk', t), ('nn', leaf('int'))], [])
+        return d if c == 'td' else seq('list', d)
+    if c == 'tdo':
+        return mb.typed([('nn', leaf('int'))], [('ok', t)])
+    if c in ('tagu', 'tagulist'):
+        u = union(t, data(allow_union))
+        return u if c == 'tagu' else seq('list', u)
+    return t
+
+
+def has_data_union(m):
+    return any(s['k'] == 'union' and any(x['k'] == 'data' for x in s['ts'])
+               for c in m['classes'] for f in c['fields'] for s in G.subtypes(f['ty'], m))
+
+
 def build_models(ctx):
     r = ctx.sub_rng('models')
-    n = 14 if ctx.tier == 'quick' else 30
+    n = 18 if ctx.tier == 'quick' else 36
     out = []
     for mi in range(1, n + 1):
         mb = C2.MB(mi)
+        mb.m['key_case'] = KEY_CASES[mi % len(KEY_CASES)]
         mb.cls([])     # root B (index 0)
 
         def fields(k, extra):
@@ -264,19 +387,20 @@ def build_models(ctx):
             r.shuffle(fs)
             return fs
 
+        with_union = (mi % 3 == 0)
+        alt_idx = mb.cls([('other_str', leaf('str')), ('opt_num', leaf('int'), 'int0')], name='Alt%dE' % mi) if with_union else None
         d_idx = mb.cls(fields(r.choice([1, 2, 3]), []), name='Inner%dD' % mi)
-        c_idx = mb.cls(fields(r.choice([1, 2]), [['my_dd', nest_ctx(r, data(d_idx))]]), name='Mid%dC' % mi)
-        bf = fields(r.choice([1, 2]), [['the_cc', nest_ctx(r, data(c_idx))]])
-        # a defaulted tail on the root and on D
+        c_idx = mb.cls(fields(r.choice([1, 2]), [['my_dd', nest_ctx(r, data(d_idx), mb, alt_idx)]]), name='Mid%dC' % mi)
+        bf = fields(r.choice([1, 2]), [['the_cc', nest_ctx(r, data(c_idx), mb, alt_idx)]])
         mb.m['classes'][0]['fields'] = [{'name': a, 'ty': b, 'default': None} for a, b in bf] + \
                                        [{'name': 'opt_num', 'ty': leaf('int'), 'default': 'int0'}]
         mb.m['classes'][d_idx]['fields'].append({'name': 'note', 'ty': leaf('str'), 'default': 'str0'})
         mb.m['classes'][0]['name'] = 'Root%dB' % mi
+        if has_data_union(mb.m):
+            mb.m['load_meta'] = {'auto_assign_tags': True}
+            mb.m['no_model'] = True
         out.append(mb)
     return out
-
-
-RESOLVED = set()
 
 
 def ascii_tree(t):
@@ -287,6 +411,85 @@ def ascii_tree(t):
             return ['S', t[1].encode('ascii', 'replace').decode()]
         return [ascii_tree(x) for x in t]
     return t
+
+
+RESOLVED = set()
+
+
+def make_plan(ctx, mb, r):
+    """-> (doc, plan) ; plan: list of (kind, pos, what, expectation, mutated document)"""
+    quick = ctx.tier == 'quick'
+    m = mb.m
+    kc = m.get('key_case')
+    inst = None
+    for attempt in range(30):
+        cand = ascii_tree(C2.gen_inst(ctx.sub_rng('inst', mb.mi, attempt), 0, m))
+        doc = dump_doc(cand, data(0), m, ctx.sub_rng('keys', mb.mi, attempt))
+        ps = []
+        positions(data(0), doc, m, [], [], ps, 0)
+        if max(p['depth'] for p in ps) >= 3:
+            inst = cand
+            break
+    m['instances'] = []
+    plan = []
+    chosen = r.sample(ps, min(len(ps), 22 if quick else 30))
+    for pos in chosen:
+        for junk in (JUNK if not quick else r.sample(JUNK, 5)):
+            plan.append(('junk', pos, junk, expectation(pos, junk, m), mutate(doc, pos['path'], junk)))
+        tt = pos['ty']
+        while tt['k'] == 'opt':
+            tt = tt['t']
+        if tt['k'] in ('tuple', 'named'):      # wrong arity: one element short / one too many
+            cur = node_at(doc, pos['path'])
+            if cur[0] == 'L' and cur[1]:
+                plan.append(('arity-', pos, ['L', cur[1][:-1]], expectation(pos, ['L', []], m), mutate(doc, pos['path'], ['L', cur[1][:-1]])))
+                plan.append(('arity+', pos, ['L', cur[1] + [['I', '9']]], expectation(pos, ['L', []], m),
+                             mutate(doc, pos['path'], ['L', cur[1] + [['I', '9']]])))
+    # key-level mutations on every class document: removal, re-spelling, extra key
+    for pos in ps:
+        tt = pos['ty']
+        while tt['k'] == 'opt':
+            tt = tt['t']
+        cur = node_at(doc, pos['path'])
+        if tt['k'] == 'union' and cur[0] == 'D':
+            tag = [x for kk, x in cur[2] if kk == ['S', TAG_KEY]]
+            tt = ([x for x in tt['ts'] if x['k'] == 'data' and tag and ['S', m['classes'][x['c']]['name']] == tag[0]] or [tt])[0]
+        if tt['k'] != 'data' or cur[0] != 'D':
+            continue
+        cd = m['classes'][tt['c']]
+        reg = 'F50' if pos.get('f50') else None
+        for i, (kk, _) in enumerate(cur[2]):
+            f = field_of_key(cd, kk[1])
+            if f is None:
+                continue
+            exp_m = {'kinds': ['M'], 'cls': cd['name'], 'names': [f['name']]}
+            if reg:
+                exp_m['region'] = reg
+            if f['default'] is None and (not quick or r.random() < 0.5):
+                plan.append(('delete', pos, f['name'], exp_m,
+                             edit_keys(doc, pos['path'], lambda kvs, i=i: kvs.__delitem__(i))))
+            sp = spellings(f['name'])
+            cands = sorted({sp[c] for c in ('SNAKE', 'CAMEL', 'PASCAL', 'KEBAB', 'SCREAMING')} | {kk[1] + 'x', kk[1].swapcase(), kk[1][:-1]})
+            cands = [c for c in cands if c and c != kk[1] and field_of_key({'fields': [g for g in cd['fields'] if g is not f]}, c) is None]
+            for newk in (cands if not quick else r.sample(cands, min(2, len(cands)))):
+                # a re-spelled key: the field is absent unless the key case accepts the spelling
+                e = None if f['default'] is not None else dict(exp_m)
+                plan.append(('rekey', pos, [f['name'], kk[1], newk], e,
+                             edit_keys(doc, pos['path'], lambda kvs, i=i, newk=newk: kvs[i].__setitem__(0, ['S', newk]))))
+        if not quick or r.random() < 0.4:
+            plan.append(('extra-key', pos, 'zzz_extra', None,
+                         edit_keys(doc, pos['path'], lambda kvs: kvs.append([['S', 'zzz_extra'], ['I', '1']]))))
+    m['docs'] = [doc] + [p[4] for p in plan]
+    return doc, plan
+
+
+def explicit_models():
+    """direct-predicate-only inputs for defects outside the modelled configuration surface"""
+    m = {'classes': [{'name': 'TaggedT', 'fields': [{'name': 'xval', 'ty': leaf('int'), 'default': 'int0'}]}],
+         'named': {}, 'typed': {}, 'key_case': None, 'dump': None, 'root': 0, 'instances': [], 'json': False, 'no_model': True,
+         'load_meta': {'tag': 'T', 'v1_on_unknown_key': 'RAISE'},
+         'docs': [['N'], ['I', '5'], ['L', [['I', '1']]], ['D', None, [[['S', 'xval'], ['I', '1']]]]]}
+    return [('F51', m)]
 
 
 def run(ctx):
@@ -303,68 +506,37 @@ def run(ctx):
                 RESOLVED.add(id_region[f['id']])
     mbs = build_models(ctx)
     r = ctx.sub_rng('docs')
-    quick = ctx.tier == 'quick'
-    plans = []          # per model: list of (kind, pos, junk, expectation)
-    for mb in mbs:
-        m = mb.m
-        m['json'] = False
-        # a well-populated instance (no empty containers on the path to nested classes)
-        inst = None
-        for attempt in range(30):
-            cand = ascii_tree(C2.gen_inst(ctx.sub_rng('inst', mb.mi, attempt), 0, m))
-            doc = dump_doc(cand, data(0), m)
-            ps = []
-            positions(data(0), doc, m, [], [], ps, 0)
-            if max(p['depth'] for p in ps) >= 3:
-                inst = cand
-                break
-        if inst is None:
-            inst = cand
-        m['instances'] = [inst]
-        plan = []
-        chosen = r.sample(ps, min(len(ps), 22 if quick else 30))
-        for pos in chosen:
-            junks = JUNK if not quick else r.sample(JUNK, 5)
-            for junk in junks:
-                plan.append(('junk', pos, junk, expectation(pos, junk, m, m['classes'][0]['name'])))
-            if pos['ty']['k'] in ('tuple', 'named'):      # wrong arity: one element short / one too many
-                cur = doc
-                for step in pos['path']:
-                    cur = cur[1][step[1]] if step[0] == 'idx' else cur[2][step[1]][1]
-                if cur[0] == 'L' and cur[1]:
-                    plan.append(('arity-', pos, ['L', cur[1][:-1]], expectation(pos, ['L', []], m, None)))
-                    plan.append(('arity+', pos, ['L', cur[1] + [['I', '9']]], expectation(pos, ['L', []], m, None)))
-        # removal of each key of each class document
-        for pos in ps:
-            if pos['ty']['k'] == 'data':
-                cd = m['classes'][pos['ty']['c']]
-                cur = doc
-                for step in pos['path']:
-                    cur = cur[1][step[1]] if step[0] == 'idx' else cur[2][step[1]][1]
-                for i, (kk, _) in enumerate(cur[2]):
-                    f = [f for f in cd['fields'] if f['name'] == kk[1]][0]
-                    if f['default'] is None and (not quick or r.random() < 0.5):
-                        plan.append(('delete', pos, i, {'kinds': ['M'], 'cls': cd['name'], 'names': [kk[1]]}))
-        m['docs'] = [doc] + [delete_key(doc, p['path'], j) if kind == 'delete' else mutate(doc, p['path'], j)
-                             for kind, p, j, _ in plan]
-        plans.append((doc, plan))
+    plans = [make_plan(ctx, mb, r) for mb in mbs]
+    ex = explicit_models()
+    impl = ctx.impl('c14', {'models': [mb.m for mb in mbs] + [m for _, m in ex]}, timeout=900)['models']
+    impl, impl_ex = impl[:len(mbs)], impl[len(mbs):]
 
-    impl = ctx.impl('c14', {'models': [mb.m for mb in mbs]}, timeout=900)['models']
+    # ---- explicit inputs (direct predicates only)
+    for (reg, m), res in zip(ex, impl_ex):
+        for d, out in zip(m['docs'], res.get('docs', [])):
+            ctx.count(1, key='x:%s|%s' % (reg, json.dumps(d)), nontrivial=False)
+            if 'err' in out:
+                bad = check_error(out, None)
+                if bad:
+                    if reg not in RESOLVED and ctx.is_open_region(REGION_ID[reg]):
+                        ctx.hist('known_region', reg)
+                    else:
+                        ctx.violation(bad, {'kind': 'doc', 'model': {**m, 'docs': [d]}, 'expect': None, 'what': 'explicit %s' % reg})
 
     # ---- model side: one prelude per model (class table + oracle table), documents in small shards
     model_ok, mres = True, {}
     try:
         shards, index = [], []
         for mi, (mb, res) in enumerate(zip(mbs, impl)):
-            if res.get('setup_err') or res.get('gen_err'):
+            if res.get('setup_err') or res.get('gen_err') or mb.m.get('no_model'):
                 continue
             pre = 'Definition ct : ctable := %s.\nDefinition tb : list oentry := %s.' % (
                 G.coq_ct(mb.m, res['keys']), G.coq_oracle([(l, o, v, a) for l, o, v, a in res['oracle']]))
-            ex = ['case_load tb ct %d 0 %s' % (C2.BUDGET, G.coq_pv(d)) for d in mb.m['docs']]
+            exs = ['case_load tb ct %d 0 %s' % (C2.BUDGET, G.coq_pv(d)) for d in mb.m['docs']]
             SH = 40
-            for i in range(0, len(ex), SH):
-                shards.append((pre, ex[i:i + SH]))
-                index.append([(mi, di) for di in range(i, min(i + SH, len(ex)))])
+            for i in range(0, len(exs), SH):
+                shards.append((pre, exs[i:i + SH]))
+                index.append([(mi, di) for di in range(i, min(i + SH, len(exs)))])
         outs = G.coq_shards(os.path.join(ctx.workdir, 'cases'), C2.IMPORTS, shards,
                             jobs=8 if ctx.tier == 'quick' else 10, timeout=900)
         for idx, out in zip(index, outs):
@@ -379,6 +551,7 @@ def run(ctx):
     n_dis = 0
     for mi, (mb, res, (doc, plan)) in enumerate(zip(mbs, impl, plans)):
         m = mb.m
+        ctx.hist('key_case', m.get('key_case'))
         if res.get('setup_err') or res.get('gen_err'):
             ctx.broken_tie('harness could not set up C14 model %d' % mi, res.get('setup_err') or res.get('gen_err'))
             continue
@@ -388,35 +561,35 @@ def run(ctx):
                 ctx.broken_tie('oracle hypothesis violated: leaf loader %s raised a library error' % l, {'value': v, 'answer': a})
         base = res['docs'][0]
         if 'ok' not in base:
-            ctx.violation('a well-typed document does not load: %s' % base.get('err'),
-                          {'kind': 'doc', 'model': {**m, 'docs': [doc], 'instances': []}, 'expect': None})
-        for pi, (kind, pos, junk, exp) in enumerate(plan):
+            ctx.violation('a well-typed document does not load: %s (%s)' % (base.get('err'), (base.get('msg') or '')[:200]),
+                          {'kind': 'doc', 'model': {**m, 'docs': [doc], 'instances': []}, 'expect': None, 'what': 'well-typed document'})
+        for pi, (kind, pos, what, exp, d) in enumerate(plan):
             di = pi + 1
             out = res['docs'][di]
-            d = m['docs'][di]
             nontriv = pos['depth'] >= 2
-            ctx.count(1, key='d:%d|%s|%s|%s' % (mi, json.dumps(pos['path']), kind, json.dumps(junk)[:80]), nontrivial=nontriv)
-            ctx.hist('junk', kind if kind != 'junk' else junk[0] + (':' + str(junk[1])[:6] if len(junk) > 1 and junk[0] in 'FB' else ''))
+            ctx.count(1, key='d:%d|%s|%s|%s' % (mi, json.dumps(pos['path']), kind, json.dumps(what)[:80]), nontrivial=nontriv)
+            ctx.hist('mutation', kind if kind != 'junk' else 'junk:' + what[0] + (':' + str(what[1])[:6] if len(what) > 1 and what[0] in 'FB' else ''))
             ctx.hist('position_type', pos['ty']['k'])
             ctx.hist('depth', pos['depth'])
             rp = {'kind': 'doc', 'model': {**m, 'docs': [d], 'instances': []}, 'expect': exp,
-                  'what': '%s at %s' % (kind, json.dumps(pos['path']))}
+                  'what': '%s %s at %s' % (kind, json.dumps(what)[:60], json.dumps(pos['path']))}
             if 'build_err' in out:
                 ctx.broken_tie('harness could not build a document', out['build_err'])
                 continue
+            shaped = dc_shape(data(0), d, m)
             if 'ok' in out:
                 ctx.hist('outcome', 'loads')
             else:
                 ctx.hist('outcome', out['err'])
                 bad = check_error(out, exp)
                 if bad:
-                    reg = (exp or {}).get('region') or (None if dc_shape(data(0), d, m) else 'F24')
+                    reg = (exp or {}).get('region') or (None if shaped else 'F24')
                     if reg and reg not in RESOLVED and ctx.is_open_region(REGION_ID[reg]) and out.get('lib') and out.get('renders'):
                         ctx.hist('known_region', reg)
                     else:
-                        ctx.violation('%s (junk %s at %s)' % (bad, json.dumps(junk)[:60], json.dumps(pos['path'])), rp)
+                        ctx.violation('%s (%s %s at %s, key case %s)' % (bad, kind, json.dumps(what)[:60], json.dumps(pos['path']), m.get('key_case')), rp)
             # ---- correspondence
-            if model_ok and (mi, di) in mres and not ('F24' in RESOLVED and not dc_shape(data(0), d, m)):
+            if model_ok and (mi, di) in mres and not ('F24' in RESOLVED and not shaped) and not ('F50' in RESOLVED and pos.get('f50')):
                 mr = mres[(mi, di)]
                 ctx.traces_validated += 1
                 if 'marker' in mr['code']:
@@ -428,20 +601,16 @@ def run(ctx):
                         ctx.broken_tie('generated-code model and implementation disagree on a malformed document',
                                        {'model': mr['code'], 'impl': {k: v for k, v in out.items() if k not in ('msg', 'mro')}, 'doc': d})
                 # the Coq locator agrees with the independent Python locator inside the proved region
-                if 'lib' in mr['spec'] and mr['shape'] and dc_shape(data(0), d, m) and exp and not exp.get('region') and not _has_named(m) \
-                        and mr['spec']['lib'] in ('P', 'D') and mr['loc'] is not None:
-                    if [exp.get('cls'), exp.get('fld')] != mr['loc'] and exp['kinds'] != ['M']:
+                if 'lib' in mr['spec'] and mr['shape'] and shaped and exp and not exp.get('region') \
+                        and mr['spec']['lib'] in ('P', 'D') and mr['loc'] is not None and exp['kinds'] != ['M']:
+                    if [exp.get('cls'), exp.get('fld')] != mr['loc'] and not (exp.get('alt') and mr['loc'][0] == exp['alt']['cls']):
                         ctx.broken_tie('Coq locate and the Python reference locator disagree',
                                        {'coq': mr['loc'], 'python': [exp.get('cls'), exp.get('fld')], 'doc': d})
         if mi == 0:
             ctx.sample({'classes': [(c['name'], [(f['name'], G.py_ann(f['ty'], m)) for f in c['fields']]) for c in m['classes']],
-                        'document': doc, 'first_mutation': {'path': plan[0][1]['path'], 'junk': plan[0][2], 'expect': plan[0][3],
-                                                            'impl': {k: v for k, v in res['docs'][1].items() if k in ('err', 'lib', 'cls', 'fld', 'renders')}}})
-
-
-
-def _has_named(m):
-    return bool(m['named'])
+                        'key_case': m.get('key_case'), 'document': doc,
+                        'first_mutation': {'kind': plan[0][0], 'path': plan[0][1]['path'], 'what': plan[0][2], 'expect': plan[0][3],
+                                           'impl': {k: v for k, v in res['docs'][1].items() if k in ('err', 'lib', 'cls', 'fld', 'renders')}}})
 
 
 def check_error(out, exp):
@@ -449,7 +618,7 @@ def check_error(out, exp):
     if not out.get('lib'):
         return 'load raised %s, which is not a JSONWizardError (mro %s)' % (out['err'], out.get('mro'))
     if not out.get('renders'):
-        return 'str(e) raised %s' % out.get('render_err')
+        return 'str(e) raised %s (error %s)' % (out.get('render_err'), out['err'])
     if exp is None:
         return None
     for e in [exp] + ([exp['alt']] if exp.get('alt') else []):
@@ -461,8 +630,9 @@ def check_error(out, exp):
             if out['kind'] == 'M' and e.get('names') and not set(e['names']) <= set(out.get('names') or []):
                 continue
             return None
-    return 'error %s names (class %r, field %r, missing %r), expected %s (class %r, field %r)' % (
-        out['err'], out.get('cls'), out.get('fld'), out.get('names'), '/'.join(exp['kinds']), exp.get('cls'), exp.get('fld'))
+    return 'error %s names (class %r, field %r, missing %r), expected %s (class %r, field %r, missing %r)' % (
+        out['err'], out.get('cls'), out.get('fld'), out.get('names'), '/'.join(exp['kinds']), exp.get('cls'), exp.get('fld'),
+        exp.get('names'))
 
 
 def replay(ctx, obj, quiet=False):
@@ -478,8 +648,6 @@ def replay(ctx, obj, quiet=False):
     for d, out in zip(obj['model']['docs'], res['docs']):
         if 'ok' in out:
             msg = 'loads'
-            if obj.get('expect') is None and obj.get('what') is None:
-                pass
         else:
             bad = check_error(out, obj.get('expect'))
             msg = bad or 'raises %s naming (%r, %r) as expected' % (out['err'], out.get('cls'), out.get('fld'))
